@@ -72,6 +72,7 @@ type sys struct {
 	nVars   int
 	indexed []bool
 	mgrs    []*resources.LocalSharedManager
+	timeouts []time.Duration
 	progs   [][]section
 	hist    []histOp
 	done    int
@@ -98,6 +99,7 @@ func (s *sys) generate() {
 			init = tla.MakeTuple(tla.MakeNumber(100), tla.MakeNumber(100))
 		}
 		s.mgrs = append(s.mgrs, resources.NewLocalSharedManager(init, resources.WithLocalSharedResourceTimeout(to)))
+		s.timeouts = append(s.timeouts, to)
 		fmt.Fprintf(&sb, "v%d(timeout %v indexed=%v) ", v, to, s.indexed[v])
 	}
 	s.incs = make([]int, s.nVars)
@@ -236,10 +238,17 @@ func (s *sys) runCtx(c int) {
 				if !held[o.v] && len(held) > 0 {
 					w.Probe("second_lock_in_section")
 				}
+				opStart, lagStart := w.Now(), w.SelfLag()
+				checkDur := func() {
+					if took := (w.Now() - opStart) - (w.SelfLag() - lagStart); took > s.timeouts[o.v]+5*time.Millisecond {
+						w.Fail("acquisition_outlived_timeout", "context %d: an operation on v%d (lock time-out %v) took %v of its own simulated time | %s", c, o.v, s.timeouts[o.v], took, s.desc)
+					}
+				}
 				switch o.kind {
 				case kRead:
 					v, err := iface.Read(h, nil)
 					if err != nil {
+						checkDur()
 						if err == distsys.ErrCriticalSectionAborted {
 							w.Probe("lock_timeout")
 						}
@@ -250,6 +259,7 @@ func (s *sys) runCtx(c int) {
 				case kIdxRead:
 					v, err := iface.Read(h, []tla.Value{tla.MakeNumber(o.idx)})
 					if err != nil {
+						checkDur()
 						if err == distsys.ErrCriticalSectionAborted {
 							w.Probe("lock_timeout")
 						}
@@ -263,6 +273,7 @@ func (s *sys) runCtx(c int) {
 						val = last[o.from] + o.delta
 					}
 					if err := iface.Write(h, nil, tla.MakeNumber(val)); err != nil {
+						checkDur()
 						if err == distsys.ErrCriticalSectionAborted {
 							w.Probe("lock_timeout")
 						}
@@ -276,6 +287,7 @@ func (s *sys) runCtx(c int) {
 						val = lastIdx[[2]int32{int32(o.from), o.idx}] + o.delta
 					}
 					if err := iface.Write(h, []tla.Value{tla.MakeNumber(o.idx)}, tla.MakeNumber(val)); err != nil {
+						checkDur()
 						if err == distsys.ErrCriticalSectionAborted {
 							w.Probe("lock_timeout")
 						}
@@ -284,6 +296,10 @@ func (s *sys) runCtx(c int) {
 					lastIdx[[2]int32{int32(o.v), o.idx}] = val
 					cur = append(cur, step{Write: true, Var: o.v, Idx: o.idx, Val: val})
 				}
+				// an acquisition that cannot succeed aborts after the variable's time-out: whatever the
+				// holder does, no operation on a shared variable takes longer than that (net of the
+				// time the simulator itself took from this task)
+				checkDur()
 				held[o.v] = true
 			}
 			if failNow && sec.failAfter == len(sec.ops) {
